@@ -85,7 +85,8 @@ impl Property for C02 {
             reqs.push(format!("gen.c02call {}", i));
         }
         // literals in every spelling (hex, signed exponents) written without blanks around each binary operator
-        for i in 0..(13 * 13 * 14) {
+        // 14 atoms x 14 atoms x 14 binary operators, then 14 atoms x 6 prefix shapes (`-A`, `-A ^ 2`, `2 * -A`, `(-A)`, `x = -A`, `-A - 2`)
+        for i in 0..(14 * 14 * 14 + 14 * 6) {
             reqs.push(format!("gen.c02tight {}", i));
         }
         let n_rand = if tier == Tier::Quick { 6000 } else { 300_000 };
@@ -128,7 +129,7 @@ impl Property for C05 {
     }
     fn rule(&self) -> String {
         "sequence levels generated next to the spec (chains of tuples of optional operands, operands = expressions or parenthesised levels, depth<=3) rendered with random admissible gaps: \
-         real tree must equal Spec.levelTree and the value/effects must equal the model's; plus all token strings up to a length bound over {1, x, =, `,`, `;`, (, )} (tree and value, real vs model). \
+         real tree must equal Spec.levelTree and the value/effects must equal the model's; plus all token strings up to a length bound over {1, x, =, `,`, `;`, (, )} (tree and value, real vs model), and chains that assign one variable twice over 17 values (signed zeros, tuples of several shapes, every type; value and final context bit-exact). \
          non-trivial = builds; distinct = distinct source"
             .into()
     }
@@ -156,6 +157,16 @@ impl Property for C05 {
         // the inputs named in the property and in the repaired defect
         for s in ["a, b; c, d", "1, 2; 3", "1; 2, 3; 4", "x = 1; x, 2; x + 1", "1,;2", "(1, 2; 3)", "1;", "()", "(,)", "(;)", ";;", "a = 1, 2; a"] {
             cases.push(seq_case(s, None, "named"));
+        }
+        // "with all earlier elements' effects applied": a later element that assigns the same variable again — values that
+        // compare equal but are not the same (signed zero), tuples of another shape, every type
+        let vals = ["0.0", "-0.0", "1", "2", "1.5", "\"s\"", "\"\"", "true", "false", "()", "(1, 2)", "(3, 4, 5)", "(1.5, \"x\")", "(1, (2, 3))", "(1, (2, 3, 4))", "(0.0, 1)", "(-0.0, 1)"];
+        for a in vals {
+            for b in vals {
+                cases.push(seq_case(&format!("v = {}; v = {}; v", a, b), None, "reassign"));
+                cases.push(seq_case(&format!("v = {}; v = {}; 1 / v, v", a, b), None, "reassign"));
+                cases.push(seq_case(&format!("v = {}, w = {}; v = w; v", a, b), None, "reassign"));
+            }
         }
         (cases, false)
     }
